@@ -19,7 +19,7 @@ for d in sorted(glob.glob(os.path.join(root, "seeded", "C*-m*"))):
         stats["superseded"] += 1
     elif verdict != "DETECTED":
         stats["missed"] += 1
-    elif name in notes:
+    elif name in notes and not notes[name].startswith("detected at the quick tier as delivered"):
         stats["later"] += 1
     else:
         stats["first"] += 1
